@@ -39,11 +39,12 @@ def exhaustive(tier):
 
 def required(tier):
     return ["all_40_headers_routed_alone", "all_40_together", "empty_body", "bom_by_path", "crlf", "crlf_by_path", "unknown_between_known",
-            "required_first", "required_last", "missing:Song", "missing:SyncTrack", "missing:Events", "instrument_before_Song"]
+            "required_first", "required_last", "missing:Song", "missing:SyncTrack", "missing:Events", "instrument_before_Song", "align:straddle", "align:line_end"]
 
 
 def shards(tier, seed):
     out = [{"name": f"alone-{i}", "kind": "alone", "pairs": model.ALL_PAIRS[i::8]} for i in range(8)]
+    out += [{"name": f"align-{i}", "kind": "align", "part": i} for i in range(2 if tier == "quick" else 6)]
     n = 8 if tier == "quick" else 40
     out += [{"name": f"perm-{i}", "kind": "perm", "count": 12 if tier == "quick" else 150} for i in range(n)]
     return out
@@ -131,7 +132,7 @@ def parse_variant(text, via_path, bom):
         return harness.Outcome(None, e, env.LOG.drain())
 
 
-def judge_rendering(rec, sections, truth, newline, via_path, bom, baseline):
+def judge_rendering(rec, sections, truth, newline, via_path, bom, baseline, light=False):
     text = gen.render_sections(sections, newline)
     case = {"sections": [[n, list(b)] for n, b in sections], "truth": truth, "newline": newline, "via_path": via_path, "bom": bom}
     probes.drain()
@@ -145,11 +146,16 @@ def judge_rendering(rec, sections, truth, newline, via_path, bom, baseline):
     ok = check_framing(rec, sections, out, case)
     ok &= check_unknown_reports(rec, sections, out, case)
     ob = harness.obs(out.chart)
-    d = model.compare(truth, ob)
-    rec.ev(d.evals.get("C06", 0))
-    mine = d.of("C06")
-    if mine:
-        rec.violation(mine[0][1], mine[0][2], case, f"C06:{mine[0][1]}")
+    if not light:
+        d = model.compare(truth, ob)
+        rec.ev(d.evals.get("C06", 0))
+        mine = d.of("C06")
+        if mine:
+            rec.violation(mine[0][1], mine[0][2], case, f"C06:{mine[0][1]}")
+            ok = False
+    elif ob["metadata"].get("name") != truth["metadata"].get("name"):
+        rec.violation("field", f"metadata.name read {'by path' if via_path else 'from text'}: expected {truth['metadata'].get('name')!r:.80}, "
+                      f"observed {ob['metadata'].get('name')!r:.80}", case, "C06:name-mangled")
         ok = False
     dg = observe.digest(ob)
     if baseline is not None:
@@ -230,11 +236,73 @@ def run_spec(rec, rng, case, n_render):
             rec.cls(f"missing:{miss}")
 
 
+def alignment_cases(rng, part):
+    """(a) read by path without BOM: a 3-byte character whose bytes straddle byte offset 2^k (k = 9..17);
+       (b) a body line that ends exactly on character offset 2^k (k = 12..17), for every section it can fall into."""
+    out = []
+    # a chart long enough to reach 2^17 characters
+    case = gen.gen_chart(rng, "stress", pairs=[("GUITAR", "EXPERT"), ("BASS", "HARD")], n_groups=[1700, 1700, 3300, 3300, 3300, 3300][part % 6], n_globals=30,
+                         n_tempos=6, shuffle_sections=False, newline="\n")
+    secs = [(n, list(b)) for n, b in case["sections"]]
+    truth = case["truth"]
+    song = dict(secs)["Song"]
+    song[:] = [ln for ln in song if not ln.strip().startswith("Name =")]
+    truth["metadata"].pop("name", None)
+
+    def with_name(value):
+        t = dict(truth, metadata=dict(truth["metadata"], name=value))
+        s2 = [(n, ([f"  Name = \"{value}\""] + b if n == "Song" else b)) for n, b in secs]
+        return s2, t
+
+    base_text = gen.render_sections(with_name("")[0])  # only for measuring offsets
+    prefix = base_text.index("  Name = \"") + len("  Name = \"")
+    # (a) straddle: value = ASCII filler + 3-byte char placed so that its first byte is at offset 2^k - 1 or 2^k - 2
+    for k in ((9, 10, 12, 13, 16) if part % 2 == 0 else ()):
+        for back in (1, 2):
+            fill = 2**k - back - prefix
+            if fill < 0 or 2**k + 40 > len(base_text):
+                continue
+            out.append(("straddle", k, with_name("x" * fill + "\u4e16\u754c")))
+    # (b) line ends on 2^k: pad the Name so that some later body line's end (incl. newline) lands on 2^k, sweeping one line length
+    for k in ((12, 13, 14, 15, 16, 17) if part % 2 == 1 else ()):
+        if 2**k + 40 > len(base_text):
+            continue
+        # position of the first line end at or after 2^k in the unpadded text
+        e = base_text.index("\n", 2**k - 1) + 1
+        need = e - 2**k  # shift everything left by `need`... we can only pad (shift right): pad so the PREVIOUS line end lands on 2^k
+        prev_end = base_text.rindex("\n", 0, 2**k - 1) + 1 if 2**k - 1 > 0 else 0
+        pad = 2**k - prev_end
+        out.append(("line_end", k, with_name("y" * pad)))
+    return out
+
+
+def run_alignment(rec, rng, part):
+    for kind, k, (secs, truth) in alignment_cases(rng, part):
+        text = gen.render_sections(secs)
+        if kind == "line_end" and text[2**k - 1] != "\n":
+            rec.diag(f"alignment construction missed 2^{k}")
+            continue
+        if kind == "straddle":
+            b = text.encode("utf-8")
+            i = b.index("\u4e16".encode("utf-8"))
+            if not (i < 2**k < i + 3):
+                rec.diag(f"straddle construction missed 2^{k}")
+                continue
+        base = judge_rendering(rec, secs, truth, "\n", False, False, None, light=True)
+        judge_rendering(rec, secs, truth, "\n", True, False, base, light=True)
+        rec.cls(f"align:{kind}")
+        rec.into("aligned_powers_of_two", f"{kind}:2^{k}")
+        if rec.full:
+            return
+
+
 def run_shard(shard, rec, tier, seed):
     harness.setup()
     probes.install_section_probe()
     try:
-        if shard["kind"] == "alone":
+        if shard["kind"] == "align":
+            run_alignment(rec, harness.rng_for(seed, ID, shard["name"], 0), shard["part"])
+        elif shard["kind"] == "alone":
             for j, (inst, diff) in enumerate(shard["pairs"]):
                 rng = harness.rng_for(seed, ID, shard["name"], j)
                 case = gen.gen_chart(rng, "realistic", pairs=[(inst, diff)], n_groups=rng.choice([0, 3, 12]), n_globals=2, shuffle_sections=False)
